@@ -119,7 +119,10 @@ impl ReplicaSpec {
                 v
             }
             PathKind::Text => vec![Proj::Text],
-            PathKind::TextTransitive => vec![Proj::TextTransitive],
+            PathKind::TextTransitive => match self.text.trans_partial {
+                Some(seed) => vec![Proj::TextTransitivePartial(seed)],
+                None => vec![Proj::TextTransitive],
+            },
         }
     }
 
@@ -156,6 +159,12 @@ pub enum Built {
 }
 
 impl Built {
+    pub fn into_ok(self) -> Option<Box<Ontology>> {
+        match self {
+            Built::Ok(o) => Some(o),
+            _ => None,
+        }
+    }
     pub fn describe(&self) -> String {
         match self {
             Built::Ok(_) => "Ok".into(),
